@@ -1,5 +1,5 @@
 import Witverif.Proofs.Scalar
-import Witverif.Generated.ScalarExprs
+import Witverif.Generated.ScalarExprs.Cpp
 /-! # C14, backend `cpp`: one theorem per scalar ABI instruction
 
 `G.cpp_I` is the list of conversion expressions the `cpp` generator emitted for instruction `I`
